@@ -44,7 +44,10 @@ func init() {
 
 // ---------- metadata with attribute consuming services ----------
 
-type mdReqAttr struct{ Friendly, Name, Format string }
+type mdReqAttr struct {
+	Friendly, Name, Format string
+	Values                 []string // values the SP lists in its metadata (a filter the SP asks for; never content of an assertion)
+}
 
 type mdAttrSvc struct {
 	IsDefault *bool
@@ -110,7 +113,11 @@ func (e mdEntityX) real() *saml.EntityDescriptor {
 		for _, s := range d.Svcs {
 			as := saml.AttributeConsumingService{IsDefault: s.IsDefault}
 			for _, r := range s.Requested {
-				as.RequestedAttributes = append(as.RequestedAttributes, saml.RequestedAttribute{Attribute: saml.Attribute{FriendlyName: r.Friendly, Name: r.Name, NameFormat: r.Format}})
+				ra := saml.RequestedAttribute{Attribute: saml.Attribute{FriendlyName: r.Friendly, Name: r.Name, NameFormat: r.Format}}
+				for _, v := range r.Values {
+					ra.Attribute.Values = append(ra.Attribute.Values, saml.AttributeValue{Type: "xs:string", Value: v})
+				}
+				as.RequestedAttributes = append(as.RequestedAttributes, ra)
 			}
 			sd.AttributeConsumingServices = append(sd.AttributeConsumingServices, as)
 		}
@@ -372,6 +379,11 @@ func (c *Ctx) randSvcs() []mdAttrSvc {
 			s.Requested = append(s.Requested, mdReqAttr{Friendly: c.pick("", "fn", "Friendly Name"), Name: requestedNames[c.rng.Intn(len(requestedNames))],
 				Format: c.pick("urn:oasis:names:tc:SAML:2.0:attrname-format:basic", "urn:oasis:names:tc:SAML:2.0:attrname-format:unspecified",
 					"urn:oasis:names:tc:SAML:2.0:attrname-format:uri", "")})
+			if c.chance(0.35) {
+				ra := &s.Requested[len(s.Requested)-1]
+				ra.Values = []string{"SECRET-metadata-value-admin@sp.example.com", "root"}[:1+c.rng.Intn(2)]
+				c.count("c06-requested-attribute-values", fmt.Sprint(len(ra.Values)))
+			}
 		}
 		out = append(out, s)
 	}
@@ -1328,6 +1340,32 @@ func (c *Ctx) genC07() {
 			}
 		}
 	}
+	// the bytes the library's writer returns belong to the caller: writing further documents leaves them alone
+	{
+		why := ""
+		var held [][]byte
+		var snaps [][]byte
+		for i := 0; i < 6 && why == ""; i++ {
+			d := etree.NewDocument()
+			e := d.CreateElement("doc")
+			e.CreateAttr("n", fmt.Sprint(i))
+			e.SetText(strings.Repeat(fmt.Sprintf("document-%d ", i), 3+i%2))
+			out, err := saml.VerifXMLToBytes(d)
+			if err != nil {
+				why = "key=c07-writer-output-unstable the writer failed: " + err.Error()
+				break
+			}
+			held = append(held, out)
+			snaps = append(snaps, append([]byte{}, out...))
+			for j := range held {
+				if !bytes.Equal(held[j], snaps[j]) {
+					why = fmt.Sprintf("key=c07-writer-output-unstable the bytes returned for document %d changed when document %d was written: now %q", j, i, held[j])
+					break
+				}
+			}
+		}
+		c.emitOneWay("writerstable", nil, "done", why)
+	}
 	// reader: arbitrary inputs with references, raw CR, ]]>, illegal characters
 	pieces := []string{"&amp;", "&lt;", "&gt;", "&apos;", "&quot;", "&#xD;", "&#13;", "&#x0;", "&#xD800;", "&#x110000;", "&#99999999999999999999;", "&#x;", "&#;", "&;", "&amp", "&bogus;", "&#xZ;", "&#X41;", "&#x41;", "&#065;",
 		"\r", "\n", "\r\n", "\t", "]]>", "]]", ">", "]", "a", "b", " ", "\"", "'", "\x01", "￾", "\U00010000", "&", ";", "#", "x", "&#x00000000000000000041;", "&a.b-c;", "&lt", "&l t;"}
@@ -1619,6 +1657,13 @@ func (c *Ctx) genC08() {
 			}
 		} else {
 			c.count("c08-outcome", "error")
+			// the response could not be built: asking the same request object again (a handler that logs the error and
+			// falls through to WriteResponse, a retry) must not produce the assertion in clear either
+			if sc.mode == "sso" && adv {
+				if w := c.retrySameRequest(sc); w != "" {
+					orc = "key=c08-clear-after-error " + w
+				}
+			}
 		}
 		c.emit("idpserve", sc.toks(), impl, orc)
 	}
@@ -1756,6 +1801,51 @@ func (c *Ctx) serveWithBody(sc *serveCase) (served, string, string) {
 		return d.render()
 	})
 	return out, impl, note
+}
+
+// retrySameRequest drives one IdpAuthnRequest through the library's own steps (NewIdpAuthnRequest, Validate, the assertion
+// maker) and then asks it three times for the response; whatever comes out must not carry a session string in clear
+func (c *Ctx) retrySameRequest(sc *serveCase) string {
+	saml.MaxIssueDelay = time.Duration(sc.delay) * time.Millisecond
+	saml.MaxClockSkew = time.Duration(sc.skew) * time.Millisecond
+	saml.TimeNow = steppingClock(sc.reqNow, sc.now)
+	saml.Clock = dsig.NewFakeClockAt(time.UnixMilli(sc.now).UTC())
+	idp := c.newIDPX(sc.reg, sc.sess.real(), sc.conf)
+	why := ""
+	res := safely(func() string {
+		req, err := saml.NewIdpAuthnRequest(idp, buildSSORequest(sc.a, 0, sc.post))
+		if err != nil || req.Validate() != nil {
+			return "not-reached"
+		}
+		var maker saml.AssertionMaker = idp.AssertionMaker
+		if maker == nil {
+			maker = saml.DefaultAssertionMaker{}
+		}
+		if err := maker.MakeAssertion(req, sc.sess.real()); err != nil {
+			return "not-reached"
+		}
+		for k := 0; k < 3; k++ {
+			w := httptest.NewRecorder()
+			if k == 1 {
+				_ = req.MakeAssertionEl()
+			}
+			if err := req.WriteResponse(w); err != nil {
+				continue
+			}
+			body := w.Body.String()
+			v, _ := inputValOf([]byte(body), "SAMLResponse")
+			raw, _ := base64.StdEncoding.DecodeString(v)
+			if x := clearScan(raw, "", sc.sess); x != "" && why == "" {
+				why = fmt.Sprintf("after the first attempt failed, attempt %d on the same request emitted a response in which %s", k+1, x)
+			}
+		}
+		return "done"
+	})
+	c.count("c08-retry-same-request", res)
+	if strings.HasPrefix(res, "panic") && why == "" {
+		why = "retrying on the same request panicked: " + res
+	}
+	return why
 }
 
 // plainWithOther reports whether the EncryptedData of an emitted response opens with a key other than the recipient's.
